@@ -1,2 +1,246 @@
-/-! Line-protocol driver stub for the bcl cluster (to be written by the cluster owner). -/
-def main : IO Unit := IO.println "bad-op"
+import J5V.Go.Hex
+import J5V.Bcl.Fmt
+import J5V.Bcl.Diff
+import J5V.Bcl.ErrPrint
+/-! Line-protocol driver for the BCL models (core only); protocol: `harness/PROTOCOL-bcl.md`. -/
+open J5V.Go J5V.Bcl
+
+/-! ## Unicode table -/
+
+structure Tbl where
+  space : Array (Nat × Nat)
+  digit : Array (Nat × Nat)
+  letter : Array (Nat × Nat)
+  print : Array (Nat × Nat)
+
+partial def inRanges (a : Array (Nat × Nat)) (r : Nat) : Bool :=
+  let rec go (lo hi : Nat) : Bool :=
+    if lo ≥ hi then false
+    else
+      let mid := (lo + hi) / 2
+      let (l, h) := a[mid]!
+      if r < l then go lo mid else if r > h then go (mid + 1) hi else true
+  go 0 a.size
+
+def Tbl.cls (t : Tbl) : Cls :=
+  ⟨inRanges t.space, inRanges t.digit, inRanges t.letter, inRanges t.print⟩
+
+def parseRanges (ls : List String) (n : Nat) : Option (Array (Nat × Nat) × List String) :=
+  let rec go : Nat → List String → Array (Nat × Nat) → Option (Array (Nat × Nat) × List String)
+    | 0, ls, acc => some (acc, ls)
+    | k + 1, l :: ls, acc =>
+      match l.splitOn " " with
+      | [a, b] => match a.toNat?, b.toNat? with
+        | some x, some y => go k ls (acc.push (x, y))
+        | _, _ => none
+      | _ => none
+    | _ + 1, [], _ => none
+  go n ls #[]
+
+def parseClass (name : String) (ls : List String) : Option (Array (Nat × Nat) × List String) :=
+  match ls with
+  | h :: rest =>
+    match h.splitOn " " with
+    | [nm, n] => if nm == name then n.toNat?.bind (parseRanges rest) else none
+    | _ => none
+  | [] => none
+
+def parseTbl (content : String) : Option Tbl := do
+  let ls := (content.splitOn "\n").map (fun (l : String) => l.trimAscii.toString)
+  match ls with
+  | hdr :: rest =>
+    if !hdr.startsWith "j5v-unicode-tbl 1" then none
+    let (sp, r1) ← parseClass "space" rest
+    let (dg, r2) ← parseClass "digit" r1
+    let (lt, r3) ← parseClass "letter" r2
+    let (pr, r4) ← parseClass "print" r3
+    match r4 with
+    | e :: _ => if e == "end" then some ⟨sp, dg, lt, pr⟩ else none
+    | [] => none
+  | [] => none
+
+/-! ## Rendering of results -/
+
+def hexB (bs : List Nat) : String := toHexW bs
+def hexR (rs : List Rune) : String := toHexW (encodeRunes rs)
+
+def pt (p : Pos) : String := toString p.line ++ ":" ++ toString p.col
+def posStr (s e : Pos) : String := pt s ++ "-" ++ pt e
+
+def kindName : TokenType → String
+  | .invalid => "INVALID" | .eof => "EOF" | .eol => "EOL" | .space => "SPACE"
+  | .ident => "IDENT" | .string => "STRING" | .regex => "REGEX" | .int => "INT"
+  | .decimal => "DECIMAL" | .bool => "BOOL" | .comment => "COMMENT"
+  | .blockComment => "BLOCK_COMMENT" | .description => "DESCRIPTION"
+  | .assign => "ASSIGN" | .lbrace => "LBRACE" | .rbrace => "RBRACE" | .lbrack => "LBRACK"
+  | .rbrack => "RBRACK" | .dot => "DOT" | .comma => "COMMA" | .colon => "COLON" | .plus => "PLUS"
+  | .bang => "BANG" | .question => "QUESTION" | .anyLiteral => "T38"
+
+def tokStr (t : Token) : String := kindName t.ty ++ "@" ++ posStr t.start t.end_ ++ "=" ++ hexR t.lit
+
+def lexCls : LexErrKind → String
+  | .unexpectedEOF => "Leof" | .unexpectedChar => "Lchr" | .secondDot => "Ldot"
+  | .eolInString => "Lseol" | .eolInRegex => "Lreol" | .invalidEscape => "Lesc"
+
+def diagStr (d : Diag) : String :=
+  (match d.kind with
+   | .lex k => lexCls k
+   | .unexpectedToken got _ => "U:" ++ kindName got
+   | .unexpectedClose => "Xclose"
+   | .unclosedBlock => "Xopen") ++ "@" ++ posStr d.start d.end_
+
+def commaJoin (l : List String) : String := ",".intercalate l
+
+def spanStr (s : Span) : String := posStr s.start s.end_
+
+def identStr (i : Ident) : String := "i@" ++ spanStr i.span ++ "=" ++ hexR i.value ++ "~" ++ tokStr i.token
+def refStr (r : Reference) : String := "r@" ++ spanStr r.span ++ "[" ++ commaJoin (r.idents.map identStr) ++ "]"
+
+mutual
+partial def valueStr : Value → String
+  | .scalar tok s => "v@" ++ spanStr s ++ "~" ++ tokStr tok
+  | .array vs s => "a@" ++ spanStr s ++ "[" ++ commaJoin (vs.map valueStr) ++ "]"
+end
+
+def tagStr (t : TagValue) : String :=
+  let mark := match t.mark with
+    | .none => "n"
+    | .bang => "!~" ++ tokStr t.markToken
+    | .question => "?~" ++ tokStr t.markToken
+  let target := match t.reference, t.value with
+    | some r, _ => refStr r
+    | none, some v => valueStr v
+    | none, none => "nil"
+  "t@" ++ spanStr t.span ++ "{" ++ mark ++ ";" ++ target ++ "}"
+
+def descBody (d : Description) : String :=
+  "{" ++ hexR d.value ++ ";[" ++ commaJoin (d.tokens.map tokStr) ++ "]}"
+
+def cmtStr : Option CommentNode → String
+  | none => "-"
+  | some c => "c@" ++ spanStr c.span ++ "=" ++ hexR c.value
+
+mutual
+partial def stmtStr : Statement → String
+  | .block h body =>
+    "B@" ++ posStr h.src.start h.src.end_ ++ "{" ++ refStr h.type ++ ";[" ++
+      commaJoin (h.tags.map tagStr) ++ "];[" ++ commaJoin (h.qualifiers.map tagStr) ++ "];" ++
+      (match h.description with
+       | none => "-"
+       | some d => "d@" ++ spanStr d.span ++ descBody d) ++ ";" ++
+      (if h.isOpen then "1" else "0") ++ ";" ++ cmtStr h.src.comment ++ ";" ++ bodyStr body ++ "}"
+  | .assign a =>
+    "A@" ++ posStr a.src.start a.src.end_ ++ "{" ++ refStr a.key ++ ";" ++
+      (if a.append then "+=" else "=") ++ ";" ++ valueStr a.value ++ ";" ++ cmtStr a.src.comment ++ "}"
+  | .desc d => "D@" ++ spanStr d.span ++ descBody d
+partial def bodyStr (b : List Statement) : String := "[" ++ commaJoin (b.map stmtStr) ++ "]"
+end
+
+def parseOutStr : ParseOut → String
+  | .tree f => "tree(" ++ bodyStr f.body ++ ")"
+  | .errors es => "errs(" ++ commaJoin (es.map diagStr) ++ ")"
+  | .panic _ => "panic"
+
+def fragStr : Fragment → String
+  | .header h => "H@" ++ posStr h.src.start h.src.end_
+  | .close c => "X@" ++ spanStr c.span
+  | .assign a => "A@" ++ posStr a.src.start a.src.end_
+  | .desc d => "D@" ++ spanStr d.span
+  | .comment c => "C@" ++ spanStr c.span ++ "=" ++ hexR c.value ++ "~" ++ tokStr c.token
+
+/-- the `lex=` section: `NextToken` until the EOF token has been emitted -/
+def lexSection (cls : Cls) (src : List Rune) : String :=
+  let rec go : Nat → Cur → List Rune → List String → List String
+    | 0, _, _, acc => acc ++ ["nofuel"]
+    | fuel + 1, c, rest, acc =>
+      let s := nextToken cls c rest
+      match s.err with
+      | some e => go fuel s.cur s.rest (acc ++ ["!" ++ lexCls e.kind ++ "@" ++ posStr e.pos e.pos])
+      | none =>
+        if s.tok.ty = .eof then acc ++ [tokStr s.tok]
+        else go fuel s.cur s.rest (acc ++ [tokStr s.tok])
+  commaJoin (go (src.length + 2) Cur.init src [])
+
+def toIPos (d : Diag) : Option IPosition :=
+  some ⟨⟨d.start.line, d.start.col⟩, ⟨d.end_.line, d.end_.col⟩⟩
+
+def opParse (cls : Cls) (bytes : List Nat) : String :=
+  let src := decodeRunes bytes
+  let p0 := parseFile cls src false
+  let p1 := parseFile cls src true
+  let s0 := parseOutStr p0
+  let s1 := parseOutStr p1
+  let fr := match collectFragments cls src with
+    | .ok frags => "[" ++ commaJoin (frags.map fragStr) ++ "]"
+    | .err => "err"
+    | .panic _ => "panic"
+  let hs := match p0 with
+    | .errors es =>
+      (match humanStringAll (es.map toIPos) (splitLines bytes) 2 with
+       | .ok out => hexB out
+       | _ => "panic")
+    | _ => "-"
+  "lex=" ++ lexSection cls src ++ " p0=" ++ s0 ++ " p1=" ++ (if s1 == s0 then "=" else s1) ++
+    " fr=" ++ fr ++ " hs=" ++ hs
+
+def opRender (l1 c1 l2 c2 ctx : Int) (bytes : List Nat) : String :=
+  match humanStringAll [some ⟨⟨l1, c1⟩, ⟨l2, c2⟩⟩] (splitLines bytes) ctx with
+  | .ok out => "ok " ++ hexB out
+  | _ => "panic"
+
+def opFmt (cls : Cls) (bytes : List Nat) : String :=
+  match fmt cls (decodeRunes bytes) with
+  | .ok text => "ok " ++ hexR text
+  | .err => "err"
+  | .panic _ => "panic"
+
+def opDiff (cls : Cls) (bytes : List Nat) : String :=
+  match collectFragments cls (decodeRunes bytes) with
+  | .panic _ => "panic"
+  | .err => "err"
+  | .ok frags =>
+    let all := (diffFile cls 0 frags).map fun d => (⟨d.fromLine, d.toLine, encodeRunes d.newText⟩ : Edit)
+    match fmtDiffs (splitLines bytes) all with
+    | .ok [] => "ok -"
+    | .ok es =>
+      "ok " ++ ";".intercalate (es.map fun e =>
+        toString e.fromLine ++ ":" ++ toString e.toLine ++ ":" ++ hexB e.newText)
+    | .err _ => "err"
+    | .panic _ => "panic"
+
+def step (cls : Cls) (line : String) : String :=
+  match line.trimAscii.toString.splitOn " " with
+  | ["parse", h] => match fromHex h with
+    | some bs => opParse cls bs
+    | none => "bad-op"
+  | ["fmt", h] => match fromHex h with
+    | some bs => opFmt cls bs
+    | none => "bad-op"
+  | ["diff", h] => match fromHex h with
+    | some bs => opDiff cls bs
+    | none => "bad-op"
+  | ["render", l1, c1, l2, c2, ctx, h] =>
+    match l1.toInt?, c1.toInt?, l2.toInt?, c2.toInt?, ctx.toInt?, fromHex h with
+    | some a, some b, some c, some d, some e, some bs => opRender a b c d e bs
+    | _, _, _, _, _, _ => "bad-op"
+  | _ => "bad-op"
+
+partial def loop (f : String → String) (h : IO.FS.Stream) (out : IO.FS.Stream) : IO Unit := do
+  let line ← h.getLine
+  if line.isEmpty then return ()
+  out.putStrLn (f line)
+  loop f h out
+
+def main : IO Unit := do
+  let out ← IO.getStdout
+  let env ← IO.getEnv "VERIF_UNICODE_TBL"
+  let path := match env with
+    | some p => if p.isEmpty then "/verif/.work/unicode.tbl" else p
+    | none => "/verif/.work/unicode.tbl"
+  let tbl ← (do
+    let content ← IO.FS.readFile path
+    pure (parseTbl content)) <|> pure none
+  match tbl with
+  | none => loop (fun _ => "bad-table") (← IO.getStdin) out
+  | some t => loop (step t.cls) (← IO.getStdin) out
+  out.flush
